@@ -4,6 +4,7 @@ import CookModel.Lemmas.BuilderLayers
 import CookModel.Lemmas.BuilderDeclared
 import CookModel.Lemmas.BuilderOrderFull
 import CookModel.Lemmas.BuilderAudit
+import CookModel.Lemmas.BuilderBridge
 /-
   C16  Converters built from configuration layers are consistent or rejected.
 
@@ -18,7 +19,7 @@ namespace Cook
 open Bld
 
 /-- the lists of a best-unit store -/
-def Bld.BestStore.lists {α : Type} : BestStore α → List (List (α × Nat))
+def Bld.BestStore.lists {α : Type} : Bld.BestStore α → List (List (α × Nat))
   | .unified l => [l]
   | .bySystem m i => [m, i]
 
@@ -32,7 +33,7 @@ theorem C16_builder_no_panic {α : Type} [Arith α] (files : List (UnitsFile α)
 
 /-- On success the converter's index and units are consistent: every name, symbol and alias of every unit resolves
     to exactly that unit, every index entry is a key of the unit it maps to, and no key is shared by two units. -/
-theorem C16_builder_inv {α : Type} [Arith α] (files : List (UnitsFile α)) (conv : Converter α) (h : build files = .ok conv) :
+theorem C16_builder_inv {α : Type} [Arith α] (files : List (UnitsFile α)) (conv : Bld.Converter α) (h : build files = .ok conv) :
     (∀ (id : Nat) (u : Bld.Unit α) (k : Key), conv.units[id]? = some u → k ∈ u.keys → idxGet conv.index k = some id) ∧
     (∀ k id, idxGet conv.index k = some id → ∃ u, conv.units[id]? = some u ∧ k ∈ u.keys) ∧
     (∀ (i j : Nat) (u v : Bld.Unit α) (k : Key), conv.units[i]? = some u → conv.units[j]? = some v → k ∈ u.keys → k ∈ v.keys → i = j) := by
@@ -59,7 +60,7 @@ theorem C16_builder_inv {α : Type} [Arith α] (files : List (UnitsFile α)) (co
 /-- On success there is exactly one best-unit store per physical quantity; each of its lists is non-empty, starts
     with threshold 1, and holds only units of that quantity (after the repair; before it a list could hold units of
     another quantity or `finish` panicked). -/
-theorem C16_best_lists {α : Type} [Arith α] (files : List (UnitsFile α)) (conv : Converter α) (h : build files = .ok conv) :
+theorem C16_best_lists {α : Type} [Arith α] (files : List (UnitsFile α)) (conv : Bld.Converter α) (h : build files = .ok conv) :
     conv.best.map (·.1) = PQ.all ∧
     ∀ q s l, (q, s) ∈ conv.best → l ∈ s.lists →
       (∃ base ts, l = (Arith.ofNat 1, base) :: ts) ∧ ∀ e, e ∈ l → ∃ u, conv.units[e.2]? = some u ∧ u.quantity = q := by
@@ -67,7 +68,7 @@ theorem C16_best_lists {α : Type} [Arith α] (files : List (UnitsFile α)) (con
   refine ⟨hp.best_keys, ?_⟩
   intro q s l hqs hl
   obtain ⟨bd, _, hspec⟩ := hp.best (q, s) hqs
-  have hfin : ∀ names, BestSpec c q names l →
+  have hfin : ∀ names, Bld.BestSpec c q names l →
       (∃ base ts, l = (Arith.ofNat 1, base) :: ts) ∧ ∀ e, e ∈ l → ∃ u, conv.units[e.2]? = some u ∧ u.quantity = q := by
     intro names hs
     obtain ⟨base, _, ts, hl, _, _⟩ := hs.shape
@@ -75,7 +76,7 @@ theorem C16_best_lists {α : Type} [Arith α] (files : List (UnitsFile α)) (con
     intro e he
     obtain ⟨u, hu, hq⟩ := hs.quantity e he
     exact ⟨u.unit, by rw [hp.units, List.getElem?_map, hu]; rfl, hq⟩
-  cases bd <;> cases s <;> simp only [StoreSpec, BestStore.lists, List.mem_cons, List.not_mem_nil, or_false] at hspec hl
+  cases bd <;> cases s <;> simp only [StoreSpec, Bld.BestStore.lists, List.mem_cons, List.not_mem_nil, or_false] at hspec hl
   · subst hl; exact hfin _ hspec
   · rcases hl with rfl | rfl
     · exact hfin _ hspec.1
@@ -83,14 +84,14 @@ theorem C16_best_lists {α : Type} [Arith α] (files : List (UnitsFile α)) (con
 
 /-- The thresholds of a best list are relative to its first unit: entry `(t, id)` after the base carries
     `t = convert_f64(1, unit id, base)` (whose same-quantity assertion holds). -/
-theorem C16_best_thresholds {α : Type} [Arith α] (files : List (UnitsFile α)) (conv : Converter α) (h : build files = .ok conv) :
+theorem C16_best_thresholds {α : Type} [Arith α] (files : List (UnitsFile α)) (conv : Bld.Converter α) (h : build files = .ok conv) :
     ∀ q s l, (q, s) ∈ conv.best → l ∈ s.lists →
       ∃ base ub ts, l = (Arith.ofNat 1, base) :: ts ∧ conv.units[base]? = some ub ∧
         ∀ e, e ∈ ts → ∃ u, conv.units[e.2]? = some u ∧ convertF (Arith.ofNat 1) u ub = .ok e.1 := by
   obtain ⟨b, c, _, hready, hp⟩ := (build_good files).of_ok h
   intro q s l hqs hl
   obtain ⟨bd, _, hspec⟩ := hp.best (q, s) hqs
-  have hfin : ∀ names, BestSpec c q names l →
+  have hfin : ∀ names, Bld.BestSpec c q names l →
       ∃ base ub ts, l = (Arith.ofNat 1, base) :: ts ∧ conv.units[base]? = some ub ∧
         ∀ e, e ∈ ts → ∃ u, conv.units[e.2]? = some u ∧ convertF (Arith.ofNat 1) u ub = .ok e.1 := by
     intro names hs
@@ -99,20 +100,20 @@ theorem C16_best_thresholds {α : Type} [Arith α] (files : List (UnitsFile α))
     intro e he
     obtain ⟨u, hu, hc⟩ := hts e he
     exact ⟨u.unit, by rw [hp.units, List.getElem?_map, hu]; rfl, hc⟩
-  cases bd <;> cases s <;> simp only [StoreSpec, BestStore.lists, List.mem_cons, List.not_mem_nil, or_false] at hspec hl
+  cases bd <;> cases s <;> simp only [StoreSpec, Bld.BestStore.lists, List.mem_cons, List.not_mem_nil, or_false] at hspec hl
   · subst hl; exact hfin _ hspec
   · rcases hl with rfl | rfl
     · exact hfin _ hspec.1
     · exact hfin _ hspec.2
 
 /-- Over exact rationals every best list is in non-decreasing order of size (ratio). -/
-theorem C16_best_sorted (files : List (UnitsFile Rat)) (conv : Converter Rat) (h : build files = .ok conv) :
+theorem C16_best_sorted (files : List (UnitsFile Rat)) (conv : Bld.Converter Rat) (h : build files = .ok conv) :
     ∀ q s l, (q, s) ∈ conv.best → l ∈ s.lists →
       l.Pairwise (fun a b => ∀ ua ub, conv.units[a.2]? = some ua → conv.units[b.2]? = some ub → ua.ratio ≤ ub.ratio) := by
   obtain ⟨b, c, _, hready, hp⟩ := (build_good files).of_ok h
   intro q s l hqs hl
   obtain ⟨bd, _, hspec⟩ := hp.best (q, s) hqs
-  have hfin : ∀ names, BestSpec c q names l →
+  have hfin : ∀ names, Bld.BestSpec c q names l →
       l.Pairwise (fun a b => ∀ ua ub, conv.units[a.2]? = some ua → conv.units[b.2]? = some ub → ua.ratio ≤ ub.ratio) := by
     intro names hs
     refine hs.sorted.imp ?_
@@ -121,7 +122,7 @@ theorem C16_best_sorted (files : List (UnitsFile Rat)) (conv : Converter Rat) (h
     obtain ⟨xa, h1, rfl⟩ := Option.map_eq_some_iff.mp hua
     obtain ⟨xb, h2, rfl⟩ := Option.map_eq_some_iff.mp hub
     exact hab xa xb h1 h2
-  cases bd <;> cases s <;> simp only [StoreSpec, BestStore.lists, List.mem_cons, List.not_mem_nil, or_false] at hspec hl
+  cases bd <;> cases s <;> simp only [StoreSpec, Bld.BestStore.lists, List.mem_cons, List.not_mem_nil, or_false] at hspec hl
   · subst hl; exact hfin _ hspec
   · rcases hl with rfl | rfl
     · exact hfin _ hspec.1
@@ -131,7 +132,7 @@ theorem C16_best_sorted (files : List (UnitsFile Rat)) (conv : Converter Rat) (h
     quantity group, in file order, with its quantity and system) are exactly the first units of the converter, and every
     declared name, symbol and alias resolves to exactly its unit.  (With extend blocks the lists of a unit are edited as
     `C16_extend_block_spec` says, and the keys of the edited units resolve by `C16_builder_inv`.) -/
-theorem C16_declared_resolve {α : Type} [Arith α] (files : List (UnitsFile α)) (conv : Converter α) (h : build files = .ok conv)
+theorem C16_declared_resolve {α : Type} [Arith α] (files : List (UnitsFile α)) (conv : Bld.Converter α) (h : build files = .ok conv)
     (hne : ∀ f, f ∈ files → f.extend = none) :
     ∀ (i : Nat) (x : UnitB α), (declared files)[i]? = some x →
       conv.units[i]? = some x.unit ∧ ∀ k, k ∈ x.unit.keys → idxGet conv.index k = some i := by
@@ -150,7 +151,7 @@ theorem C16_declared_resolve {α : Type} [Arith α] (files : List (UnitsFile α)
     names and symbols under the final prefix tables (all layers joined by precedence, `b.si`), with the ratio scaled by
     the prefix and the same difference, quantity and system — also after extend blocks renamed the unit — and every
     prefixed form resolves to exactly that generated unit. -/
-theorem C16_si_forms {α : Type} [Arith α] (files : List (UnitsFile α)) (conv : Converter α) (h : build files = .ok conv) :
+theorem C16_si_forms {α : Type} [Arith α] (files : List (UnitsFile α)) (conv : Bld.Converter α) (h : build files = .ok conv) :
     ∃ b c, buildCore files = .ok (b, c) ∧ conv.units = c.units.map (·.unit) ∧
       ∀ (i : Nat) (x : UnitB α), (declared files)[i]? = some x → x.expandSi = true →
         ∃ (u : UnitB α) (m : SIPrefix → Nat) (pfx sym : SIPrefix → List Key),
@@ -222,7 +223,7 @@ theorem C16_edit_unit {α : Type} (u : Bld.Unit α) (pr : Prec) (e : ExtendEntry
 /-- The extend block of the last layer, at the level of `build`: there is a consistent state `c0` (all earlier
     layers and blocks applied) such that every entry of the block edits, in the built converter, the unit its key
     resolves to in `c0`, by the block's precedence. -/
-theorem C16_precedence_spec {α : Type} [Arith α] (fs : List (UnitsFile α)) (f : UnitsFile α) (g : Extend α) (conv : Converter α)
+theorem C16_precedence_spec {α : Type} [Arith α] (fs : List (UnitsFile α)) (f : UnitsFile α) (g : Extend α) (conv : Bld.Converter α)
     (hg : f.extend = some g) (h : build (fs ++ [f]) = .ok conv) :
     ∃ c0 : Core α, Ready c0 ∧ ∀ ke, ke ∈ g.units → ∃ id u u', idxGet c0.index ke.1 = some id ∧ c0.units[id]? = some u ∧
         conv.units[id]? = some u' ∧ u'.aliases = optJoin u.unit.aliases ke.2.aliases g.precedence ∧
@@ -237,7 +238,7 @@ theorem C16_precedence_spec {α : Type} [Arith α] (fs : List (UnitsFile α)) (f
 /-- Settings of the layers: the converter's default system is that of the last layer that sets one (metric if none
     does); the best list of a quantity is built from the last group, in layer order, that gives one; extend blocks and
     fraction layers are kept in layer order; SI tables are joined layer by layer with `joinSI`. -/
-theorem C16_layer_settings {α : Type} [Arith α] (files : List (UnitsFile α)) (conv : Converter α) (h : build files = .ok conv) :
+theorem C16_layer_settings {α : Type} [Arith α] (files : List (UnitsFile α)) (conv : Bld.Converter α) (h : build files = .ok conv) :
     ∃ b c, buildCore files = .ok (b, c) ∧
       conv.defaultSystem = files.foldl layerDefault .metric ∧
       b.si = files.foldl layerSI { prefixes := none, symbolPrefixes := none, precedence := .before } ∧
@@ -281,7 +282,7 @@ theorem C16_fraction_layers {α : Type} (fs : List (FractionsDecl α)) (f : Frac
     (∀ sel acc, lastLayer sel (fs ++ [f]) acc = ((sel f).map FracW.get).or (lastLayer sel fs acc)) ∧
     (∀ m q, quantityLayers (fs ++ [f]) m q =
         ((f.quantity.reverse.find? (fun e => decide (e.1 = q))).map (·.2.get)).or (quantityLayers fs m q)) ∧
-    (∀ (m : List (Nat × FracCfg α)) k k' v, mapGet (mapInsert m k v) k' = if k' = k then some v else mapGet m k') := by
+    (∀ (m : List (Nat × Bld.FracCfg α)) k k' v, mapGet (mapInsert m k v) k' = if k' = k then some v else mapGet m k') := by
   refine ⟨fun sel acc => lastLayer_append sel fs f acc, ?_, fun m k k' v => mapGet_mapInsert m k k' v⟩
   intro m q
   rw [quantityLayers_append, quantityLayer_get]
@@ -314,7 +315,7 @@ theorem C16_extend_order_unique {α : Type} [Arith α] (si : SIConf) (c c1 c2 : 
 
 /-- The premises `Ready` and `SIInv` of the order theorem hold for every state `finish` applies a block to (here: the
     state before the last layer's block; the same holds for every earlier block by `applyExtendGroups_good/_si`). -/
-theorem C16_extend_order_applies {α : Type} [Arith α] (fs : List (UnitsFile α)) (f : UnitsFile α) (g : Extend α) (conv : Converter α)
+theorem C16_extend_order_applies {α : Type} [Arith α] (fs : List (UnitsFile α)) (f : UnitsFile α) (g : Extend α) (conv : Bld.Converter α)
     (hg : f.extend = some g) (h : build (fs ++ [f]) = .ok conv) :
     ∃ b c c0, buildCore (fs ++ [f]) = .ok (b, c) ∧ Ready c0 ∧ SIInv b.si c0.units ∧ applyExtendGroup b.si c0 g = .ok c := by
   obtain ⟨b, c, hbc, _, _⟩ := (build_good (fs ++ [f])).of_ok h
@@ -328,7 +329,7 @@ theorem C16_extend_order_applies {α : Type} [Arith α] (fs : List (UnitsFile α
     `Converter::bundled` do not panic), so every theorem above applies to the default converter.  That the generated
     value is the file build.rs bundles is what the harness compares (`build_shipped` against `Converter::default()`). -/
 theorem C16_default_converter :
-    ∃ conv : Converter Rat, bundled = .ok conv ∧ build [Gen.shippedFile] = .ok conv := by
+    ∃ conv : Bld.Converter Rat, bundled = .ok conv ∧ build [Gen.shippedFile] = .ok conv := by
   have h : (bundled (α := Rat)).toOption.isSome = true := by decide +kernel
   cases hb : bundled (α := Rat) with
   | error e => rw [hb] at h; cases h
@@ -342,7 +343,7 @@ theorem C16_default_converter :
     applied to a consistent state `c0` (`Ready`, `SIInv`).  Hence `C16_extend_block_spec` (each entry edits the unit its
     key resolves to in `c0`, by the block's precedence), `C16_extend_order` and `C16_extend_order_unique` hold for the
     block of every layer; later blocks then edit the result `c1` in the same way. -/
-theorem C16_every_extend_block {α : Type} [Arith α] (files : List (UnitsFile α)) (conv : Converter α) (h : build files = .ok conv) :
+theorem C16_every_extend_block {α : Type} [Arith α] (files : List (UnitsFile α)) (conv : Bld.Converter α) (h : build files = .ok conv) :
     ∃ b c ce, buildCore files = .ok (b, c) ∧ conv.units = c.units.map (·.unit) ∧ conv.index = c.index ∧
       expandAll b.si b.core = .ok ce ∧ b.extend = files.filterMap (·.extend) ∧
       ∀ pre g post, b.extend = pre ++ g :: post →
@@ -373,7 +374,7 @@ theorem C16_duplicate_declared_rejected {α : Type} [Arith α] (files : List (Un
 /-- Rejection of empty keys: in a successful build every declared unit has at least one key, no key of it is blank
     (empty or white space only) and no key occurs twice among its names, symbols and aliases.  (Contrapositive: a layer
     with a unit without keys, with a blank key, or with the same key twice is rejected.) -/
-theorem C16_declared_keys_wellformed {α : Type} [Arith α] (files : List (UnitsFile α)) (conv : Converter α) (h : build files = .ok conv) :
+theorem C16_declared_keys_wellformed {α : Type} [Arith α] (files : List (UnitsFile α)) (conv : Bld.Converter α) (h : build files = .ok conv) :
     ∀ x, x ∈ declared files → x.unit.keys ≠ [] ∧ (∀ k, k ∈ x.unit.keys → isBlankKey k = false) ∧ x.unit.keys.Nodup := by
   obtain ⟨b, c, hbc, _, _⟩ := (build_good files).of_ok h
   obtain ⟨hadd, _, _, _⟩ := audit_buildCore_parts files b c hbc
@@ -385,7 +386,7 @@ theorem C16_declared_keys_wellformed {α : Type} [Arith α] (files : List (Units
     `i`-th unit of the converter; it keeps its physical quantity and system whatever the blocks do; every key it ends
     up with resolves to `i`; and when no extend block of any layer addresses it by one of its keys it is exactly the
     declared unit. -/
-theorem C16_declared_units {α : Type} [Arith α] (files : List (UnitsFile α)) (conv : Converter α) (h : build files = .ok conv) :
+theorem C16_declared_units {α : Type} [Arith α] (files : List (UnitsFile α)) (conv : Bld.Converter α) (h : build files = .ok conv) :
     ∀ (i : Nat) (x : UnitB α), (declared files)[i]? = some x →
       ∃ u : Bld.Unit α, conv.units[i]? = some u ∧ u.quantity = x.unit.quantity ∧ u.system = x.unit.system ∧
         (∀ k, k ∈ u.keys → idxGet conv.index k = some i) ∧
@@ -421,7 +422,7 @@ def Bld.BestDecl.lists : BestDecl → List (List Key)
     that gives one for `q`; list by list, its units are exactly the units the declared names resolve to in the final
     index (as a multiset: the list is re-sorted by size), so every declared best name resolves, to a unit of `q`.
     (Contrapositive: an unknown best name, or one of another physical quantity, is rejected.) -/
-theorem C16_best_members {α : Type} [Arith α] (files : List (UnitsFile α)) (conv : Converter α) (h : build files = .ok conv) :
+theorem C16_best_members {α : Type} [Arith α] (files : List (UnitsFile α)) (conv : Bld.Converter α) (h : build files = .ok conv) :
     ∀ q s, (q, s) ∈ conv.best → ∃ bd, files.foldl (layerBest q) none = some bd ∧ bd.lists.length = s.lists.length ∧
       ∀ (n : Nat) (names : List Key) (l : List (α × Nat)), bd.lists[n]? = some names → s.lists[n]? = some l →
         ((l.map (·.2)).map some).Perm (names.map (idxGet conv.index)) ∧
@@ -433,7 +434,7 @@ theorem C16_best_members {α : Type} [Arith α] (files : List (UnitsFile α)) (c
   intro q s hqs
   obtain ⟨bd, h1, hspec⟩ := hp.best (q, s) hqs
   refine ⟨bd, by have := a5 q; rw [h1] at this; exact this.symm, ?_⟩
-  have hfin : ∀ names l, BestSpec c q names l →
+  have hfin : ∀ names l, Bld.BestSpec c q names l →
       ((l.map (·.2)).map some).Perm (names.map (idxGet conv.index)) ∧
         ∀ name, name ∈ names → ∃ id u, idxGet conv.index name = some id ∧ id ∈ l.map (·.2) ∧
           conv.units[id]? = some u ∧ u.quantity = q := by
@@ -452,13 +453,13 @@ theorem C16_best_members {α : Type} [Arith α] (files : List (UnitsFile α)) (c
   · refine ⟨rfl, ?_⟩
     intro n names l hn hl
     cases n with
-    | zero => simp [BestDecl.lists, BestStore.lists] at hn hl; subst hn; subst hl; exact hfin _ _ hspec
+    | zero => simp [BestDecl.lists, Bld.BestStore.lists] at hn hl; subst hn; subst hl; exact hfin _ _ hspec
     | succ n => simp [BestDecl.lists] at hn
   · refine ⟨rfl, ?_⟩
     intro n names l hn hl
     match n with
-    | 0 => simp [BestDecl.lists, BestStore.lists] at hn hl; subst hn; subst hl; exact hfin _ _ hspec.1
-    | 1 => simp [BestDecl.lists, BestStore.lists] at hn hl; subst hn; subst hl; exact hfin _ _ hspec.2
+    | 0 => simp [BestDecl.lists, Bld.BestStore.lists] at hn hl; subst hn; subst hl; exact hfin _ _ hspec.1
+    | 1 => simp [BestDecl.lists, Bld.BestStore.lists] at hn hl; subst hn; subst hl; exact hfin _ _ hspec.2
     | n + 2 => simp [BestDecl.lists] at hn
 
 /-- Fraction settings OF THE CONVERTER (`C16_fraction_layers` reads the folds; this ties them to the result): the
@@ -466,7 +467,7 @@ theorem C16_best_members {α : Type} [Arith α] (files : List (UnitsFile α)) (c
     the last-layer-wins folds, completed with the defaults (`FracH.define`); every key of every layer's `unit` table
     resolves in the final index (an unknown key is a build error), and the per-unit table has an entry exactly for the
     units some layer names. -/
-theorem C16_fractions {α : Type} [Arith α] (files : List (UnitsFile α)) (conv : Converter α) (h : build files = .ok conv) :
+theorem C16_fractions {α : Type} [Arith α] (files : List (UnitsFile α)) (conv : Bld.Converter α) (h : build files = .ok conv) :
     ∃ layers, layers = files.filterMap (·.fractions) ∧
       conv.fractions.all = (lastLayer (·.all) layers none).map FracH.define ∧
       conv.fractions.metric = (lastLayer (·.metric) layers none).map FracH.define ∧
@@ -487,6 +488,92 @@ theorem C16_fractions {α : Type} [Arith α] (files : List (UnitsFile α)) (conv
     exact ⟨id, u.unit, by rw [hp.index]; exact h1, by rw [hp.units, List.getElem?_map, h2]; rfl⟩
   · intro id
     rw [f6 id, hp.index]
+
+/-! ### The built converter IS a converter of the conversion model (bridge to C09, C03, C13)
+
+  `convOfBuilt` (Side/BuilderConv.lean) reads the `Converter` the builder model returns as the `Converter` the
+  conversion model (Num/Convert.lean) works with: in the Rust code they are one struct.  The theorems of C09, of the
+  consumer part of C03 and the time theorems of C13 assume `Converter.Sound`, `Converter.wf`, `TimeRatiosNonzero`;
+  below they are proved for EVERY converter the builder makes of units files without a zero ratio. -/
+
+/-- Numbers and keys of the units, every arithmetic instance.  Let `G` be a property of numbers that multiplying with an
+    SI prefix ratio keeps (over ℚ: `· ≠ 0`; for f64 "finite and positive" is one, which is the premise the property text
+    names).  If every ratio the files give — of a declared unit, or set by an extend entry — satisfies `G`, then every
+    unit of the built converter (declared, SI-expanded, edited or re-expanded by extend blocks) has a ratio satisfying
+    `G`, and it has at least one key (so `Unit::symbol`'s `expect` cannot fail on a built converter). -/
+theorem C16_built_units_ratio_keys {α : Type} [Arith α] (G : α → Prop) (hG : ∀ r p, G r → G (Arith.mul r (prefixRatio p)))
+    (files : List (UnitsFile α)) (conv : Bld.Converter α) (h : build files = .ok conv)
+    (hf : ∀ f, f ∈ files →
+      (∀ g, g ∈ f.quantity → ∀ d, g.units = some d → ∀ e, e ∈ d.entries → G e.ratio) ∧
+      (∀ x, f.extend = some x → ∀ ke, ke ∈ x.units → ∀ r, ke.2.ratio = some r → G r)) :
+    ∀ u, u ∈ conv.units → G u.ratio ∧ u.keys ≠ [] :=
+  bs_build hG files conv h hf
+
+/-- **C16 → C09/C03: every built converter is sound and well-formed.**  For every stack of units files for which the
+    build succeeds and in which no ratio is zero (`ratiosNonzero`, decidable: no declared unit has ratio 0 and no extend
+    entry sets a ratio to 0 — the ONLY condition of `Sound` a units file can violate without being rejected; see the
+    example below), the resulting converter, read as the conversion model's converter, satisfies
+    `Converter.Sound` (best lists hold units of the converter, of their quantity; ids identify units; ratios are not 0;
+    every unit has a symbol; every key finds exactly its unit) and `Converter.wf` (additionally: every fraction
+    configuration passes the assertions of `Number::new_approx`, because `FractionsConfigHelper::define` clamps). -/
+theorem C16_built_converter_sound (files : List (UnitsFile Rat)) (conv : Bld.Converter Rat) (h : build files = .ok conv)
+    (hr : ratiosNonzero files = true) : (convOfBuilt conv).Sound ∧ (convOfBuilt conv).wf = true :=
+  bridge_build files conv h hr
+
+/-- Zero ratios are the ONLY way a successfully built converter can fail to be sound: for every successful build (any
+    files, no premise), the translated converter is `Sound` if and only if no unit of the built converter has ratio 0.
+    (`ratiosNonzero files` above is the sufficient condition on the FILES; it is not necessary, because a later extend
+    block may replace a zero ratio — the condition on the RESULT is exact.) -/
+theorem C16_built_sound_iff (files : List (UnitsFile Rat)) (conv : Bld.Converter Rat) (h : build files = .ok conv) :
+    (convOfBuilt conv).Sound ↔ ∀ u, u ∈ conv.units → u.ratio ≠ 0 := by
+  constructor
+  · intro hs u hu
+    obtain ⟨i, hi⟩ := List.getElem?_of_mem hu
+    exact hs.ratio_ne (unitOfBuilt i u) ((mem_allUnits conv _).mpr ⟨i, u, hi, rfl⟩)
+  · intro hr
+    have hk := bs_build (G := fun _ : Rat => True) (fun _ _ _ => trivial) files conv h
+      (fun f _ => ⟨fun _ _ _ _ _ _ => trivial, fun _ _ _ _ _ _ => trivial⟩)
+    exact bridge_sound conv (bridge_builtOK files conv h) (fun u hu => ⟨hr u hu, (hk u hu).2⟩)
+
+/-- The translation loses nothing of the best lists (every arithmetic instance, no premise on the ratios): for every
+    quantity and system the best list of the translated converter is a list `l` of that quantity's store in the built
+    converter (the unified one, or the one of the system), with the same thresholds and unit ids in the same order —
+    no id is out of range — and it is not empty.  (So `convert`/`fit` to either system never fail with
+    "best unit not found" on a built converter.) -/
+theorem C16_built_best_entries {α : Type} [Arith α] (files : List (UnitsFile α)) (conv : Bld.Converter α) (h : build files = .ok conv)
+    (q : PhysQ) (s : System) :
+    ∃ st l, (pqTo q, st) ∈ conv.best ∧ l ∈ st.lists ∧ l ≠ [] ∧
+      (((convOfBuilt conv).best q).conversions s).entries.map (fun e => (e.1, e.2.id)) = l := by
+  obtain ⟨st, l, hst, hall, hne, _, hmap⟩ := bridge_best_entries (bridge_builtOK files conv h) q s
+  refine ⟨st, l, hst, ?_, hne, hmap⟩
+  cases st with
+  | unified l0 => exact hall (fun x => x ∈ [l0]) (by simp [BestStore.AllLists])
+  | bySystem m i => exact hall (fun x => x ∈ [m, i]) (by simp [BestStore.AllLists])
+
+/-- One object, two views: what `src/metadata.rs` sees of a built converter (`SM.convOfBuilt`, used by the C13 theorems)
+    is what it sees of the translated converter (`SM.viewOf`: time flag, ratio, difference of `all_units()` in order;
+    `find_unit` with the position as identity) — the index lookup of the builder and the key scan of the conversion
+    model find the same unit for every name. -/
+theorem C16_built_views_agree {α : Type} [Arith α] (files : List (UnitsFile α)) (conv : Bld.Converter α) (h : build files = .ok conv) :
+    (SM.convOfBuilt conv).units = (SM.viewOf (convOfBuilt conv)).units ∧
+    ∀ k, (SM.convOfBuilt conv).index k = (SM.viewOf (convOfBuilt conv)).index k :=
+  bridge_views_agree (bridge_builtOK files conv h)
+
+/-- The tie of the translation to the code: the converter the builder model makes of the shipped units file, translated,
+    IS the generated `Converter.bundled` (Gen/Units.lean, the converter all C09 runs compare with `Converter::bundled()`
+    operation by operation): same units, same best lists entry by entry, same default system, fraction table and
+    fraction settings (the per-unit table as a map). -/
+theorem C16_built_bundled_is_generated :
+    ∃ conv : Bld.Converter Rat, bundled = .ok conv ∧ SameConverter (convOfBuilt conv) (Cook.Converter.bundled Rat) := by
+  have h : (bundled (α := Rat)).toOption.map
+      (fun conv => decide (SameConverter (convOfBuilt conv) (Cook.Converter.bundled Rat))) = some true := by
+    decide +kernel
+  cases hb : bundled (α := Rat) with
+  | error e => rw [hb] at h; cases h
+  | ok conv =>
+    rw [hb] at h
+    simp only [Except.toOption, Option.map_some, Option.some.injEq, decide_eq_true_eq] at h
+    exact ⟨conv, rfl, h⟩
 
 /-! ### Non-vacuity: concrete layer stacks over exact rationals -/
 
@@ -530,10 +617,10 @@ def errOf {β : Type} : Except Err β → Option Err
   | .error e => some e
   | .ok _ => none
 
-def unitAt (r : Except Err (Converter Rat)) (i : Nat) : Option (List Key × List Key × List Key × Rat) :=
+def unitAt (r : Except Err (Bld.Converter Rat)) (i : Nat) : Option (List Key × List Key × List Key × Rat) :=
   r.toOption.bind (fun c => c.units[i]?.map (fun u => (u.names, u.symbols, u.aliases, u.ratio)))
 
-def lookup (r : Except Err (Converter Rat)) (k : Key) : Option Nat := r.toOption.bind (fun c => idxGet c.index k)
+def lookup (r : Except Err (Bld.Converter Rat)) (k : Key) : Option Nat := r.toOption.bind (fun c => idxGet c.index k)
 
 -- the base layer builds: 5 declared units + 6 expansions of gram; kilogram is unit 5 with ratio 1000
 example : (build [base]).toOption.map (·.units.length) = some 11 := by decide +kernel
@@ -590,6 +677,49 @@ def withFractions (k : Key) : UnitsFile Rat :=
 example : (build [withFractions ['g']]).toOption.map (fun c => (c.fractions.all.map (·.enabled), c.fractions.unit.map (·.1),
     (c.fractions.quantity .mass).map (·.enabled))) = some (some true, [0], some false) := by decide +kernel
 example : errOf (build [withFractions ['x']]) = some (.unknownUnit ['x']) := by decide +kernel
+
+-- bridge: the side condition holds of the example stack and of the shipped file, and the stack builds
+example : ratiosNonzero [base, spanish] = true ∧ (build [base, spanish]).toOption.isSome = true := by decide +kernel
+example : ratiosNonzero [Gen.shippedFile] = true := by decide +kernel
+
+/-- a layer with a unit of ratio 0: the builder accepts it -/
+def zeroUnit : UnitsFile Rat :=
+  { defaultSystem := none, si := none, fractions := none, extend := none,
+    quantity := [one .mass ['z'] ['Z'] 0 false [['g']]] }
+
+/-- an extend block that sets the ratio of `l` (liter) to 0: the builder accepts it too -/
+def zeroExtend : UnitsFile Rat :=
+  { defaultSystem := none, si := none, fractions := none, quantity := [],
+    extend := some { precedence := .before, units := [
+      (['l'], { ratio := some 0, difference := none, names := none, symbols := none, aliases := none })] } }
+
+example : ratiosNonzero [base, zeroUnit] = false ∧ ratiosNonzero [base, zeroExtend] = false := by decide +kernel
+
+/-- The side condition is needed: a stack with a zero ratio builds, and the converter is NOT sound. -/
+example : ∀ f, f ∈ [zeroUnit, zeroExtend] → ∃ conv, build [base, f] = .ok conv ∧ ¬ (convOfBuilt conv).Sound := by
+  have key : ∀ f : UnitsFile Rat,
+      (build [base, f]).toOption.map (fun conv => (convOfBuilt conv).allUnits.any (fun u => decide (u.ratio = 0))) = some true →
+      ∃ conv, build [base, f] = .ok conv ∧ ¬ (convOfBuilt conv).Sound := by
+    intro f h
+    cases hb : build [base, f] with
+    | error e => rw [hb] at h; cases h
+    | ok conv =>
+      rw [hb] at h
+      simp only [Except.toOption, Option.map_some, Option.some.injEq, List.any_eq_true, decide_eq_true_eq] at h
+      obtain ⟨u, hu, h0⟩ := h
+      exact ⟨conv, rfl, fun hs => hs.ratio_ne u hu h0⟩
+  intro f hf
+  simp only [List.mem_cons, List.mem_nil_iff, or_false] at hf
+  rcases hf with rfl | rfl
+  · exact key _ (by decide +kernel)
+  · exact key _ (by decide +kernel)
+
+/-- … and what goes wrong: 5 g converted to the zero-ratio unit `z` and back is 0, not 5 (C09's round trip fails). -/
+example :
+    (build [base, zeroUnit]).toOption.map (fun conv =>
+      match (convOfBuilt conv).findUnit ['g'], (convOfBuilt conv).findUnit ['z'] with
+      | some g, some z => (convertF64 (5 : Rat) g z).bind (fun w => convertF64 w z g)
+      | _, _ => none) = some (some 0) := by decide +kernel
 
 end C16Examples
 
